@@ -111,8 +111,12 @@ class JNP:
     return JNP.ones(_a(x).shape)
 
   @staticmethod
-  def arange(n, dtype=None):
-    return A([S(i) for i in range(int(n))], (int(n),), 'int32')
+  def arange(start, stop=None, step=None, dtype=None):
+    if isinstance(stop, (str, type(None))) and not isinstance(stop, int):
+      vals = list(range(int(start)))
+    else:
+      vals = list(range(int(start), int(stop), int(step) if step else 1))
+    return A([S(i) for i in vals], (len(vals),), 'int32')
 
   # ---- shape
   @staticmethod
@@ -201,11 +205,16 @@ class JNP:
   def split(x, n, axis=0):
     x = _a(x)
     axis = axis % x.ndim
-    size = x.shape[axis] // n
+    if isinstance(n, (int, np.integer)):
+      size = x.shape[axis] // n
+      bounds = [(i * size, (i + 1) * size) for i in range(n)]
+    else:
+      cuts = [0] + [int(c) for c in n] + [x.shape[axis]]
+      bounds = list(zip(cuts[:-1], cuts[1:]))
     out = []
-    for i in range(n):
+    for lo, hi in bounds:
       key = [slice(None)] * x.ndim
-      key[axis] = slice(i * size, (i + 1) * size)
+      key[axis] = slice(lo, hi)
       out.append(x[tuple(key)])
     return out
 
@@ -402,21 +411,24 @@ class JNP:
   def take_along_axis(x, idx, axis):
     x, idx = _a(x), _a(idx)
     axis = axis % x.ndim
+    from vf.sym import _bidx
+    # numpy semantics: idx and x broadcast against each other off the axis
+    oshape = tuple(idx.shape[d] if d == axis else max(idx.shape[d], x.shape[d])
+                   for d in range(x.ndim))
+    n = x.shape[axis]
     out = []
-    for pos in idx._idx():
-      i = idx.at(pos)
-      n = x.shape[axis]
+    for pos in itertools.product(*[range(s_) for s_ in oshape]):
+      i = idx.at(_bidx(pos, idx.shape, oshape))
+
       def src(k):
         p = list(pos)
         p[axis] = k
-        from vf.sym import _bidx
-        return x.at(_bidx(tuple(p), x.shape, tuple(
-            max(a, b) for a, b in zip(x.shape, idx.shape))))
+        return x.at(tuple(0 if x.shape[d] == 1 else p[d] for d in range(x.ndim)))
       v = _num(src(n - 1).t)
       for k in range(n - 2, -1, -1):
         v = z3.If(_num(i.t) == k, _num(src(k).t), v)
       out.append(S(v))
-    return A(out, idx.shape)
+    return A(out, oshape)
 
 
 def _b(x):
